@@ -195,9 +195,17 @@ class Charge:
 
         array = np.zeros((self._geo.row, self._geo.col))
 
-        charge_per_pixel = self.get_frame_values(quantity="number")
-        charge_pos_ver = self.get_frame_values(quantity="position_ver")
-        charge_pos_hor = self.get_frame_values(quantity="position_hor")
+        # The columns may hold Python objects (e.g. after model 'charge_deposition'
+        # with 'particle_direction="orthogonal"'), convert them to floats
+        charge_per_pixel = np.asarray(
+            self.get_frame_values(quantity="number"), dtype=float
+        )
+        charge_pos_ver = np.asarray(
+            self.get_frame_values(quantity="position_ver"), dtype=float
+        )
+        charge_pos_hor = np.asarray(
+            self.get_frame_values(quantity="position_hor"), dtype=float
+        )
 
         pixel_index_ver = np.floor_divide(
             charge_pos_ver, self._geo.pixel_vert_size
